@@ -94,7 +94,7 @@ def _need_set(cfg):
         need |= {"whitespace-only", "exact-plus-whitespace"}
     if cfg.strip() != cfg and cfg.strip() != "":
         need.add("trimmed")
-    if len(cfg) >= 2 and cfg[:-1].strip() != "" and cfg[:-1] != cfg.strip():
+    if len(cfg) >= 2 and cfg[:-1].strip() not in ("", cfg.strip()):   # else the longest prefix is a whitespace / trimmed variant
         need.add("prefix")
     if any(ch.isascii() and ch.isalpha() for ch in cfg):
         need.add("case-variant")
@@ -136,9 +136,17 @@ def _case_summary(c):
     return phases, nd, ne, nds
 
 
+def _is_interleave(c):
+    return _kv(c["header"].split(" "), "cls") == "interleave"
+
+
 def nontrivial(c):
     """refusals for several request tokens; with a configured token also data responses that really
-    carry the secrets (so that 'the refusal contains none of them' says something)"""
+    carry the secrets (so that 'the refusal contains none of them' says something); an interleaving case:
+    requests with a reload landing inside them, some refused and some answered with data"""
+    if _is_interleave(c):
+        obs = [l for l in c["lines"] if l.startswith("obs ")]
+        return sum("class=error" in l for l in obs) >= 6 and sum("class=data" in l for l in obs) >= 1
     phases, nd, ne, nds = _case_summary(c)
     if all(p[0] == "" for p in phases):
         return ne >= 6 and nd == 0
@@ -158,12 +166,22 @@ def custom(vc, spec, tier, seed, replay):
     cov = ev["coverage"]
     routes = re.findall(r'"([^"]+)"', cov.get("facts", {}).get("queryRoutes", ""))
     complete, reload_classes = {}, {}
+    inter = {"cases": 0, "requests_with_reload_inside": 0, "by_split_and_new_token": {}}
     incomplete = 0
     paths = set()
     MW = ("mw", "middleware-instance")
     wd = spec["property"] + ("" if vc.REPO == "/repo" else "-" + hashlib.sha1(vc.REPO.encode()).hexdigest()[:10])
     for trf in glob.glob(os.path.join(vc.CACHE, "run", wd, "s*.tr")):   # this run's transcripts (same naming as vcheck's workdir)
         for c in vc.parse_cases(open(trf).read()):
+            if _is_interleave(c):
+                ops = [l for l in c["lines"] if l.startswith("op qr ")]
+                inter["cases"] += 1
+                inter["requests_with_reload_inside"] += len(ops)
+                for l in ops:
+                    t = l.split(" ")
+                    inter["by_split_and_new_token"]["k=%s:to=%s" % (_kv(t, "k"), "cleared" if _kv(t, "to") == "%" else
+                                                    ("whitespace-only" if _dec(_kv(t, "to")).strip() == "" else "other-token"))] = 1
+                continue
             phases, nd, ne, nds = _case_summary(c)
             hdr = c["header"].split(" ")
             cls, cls2 = _kv(hdr, "cls") or "?", _kv(hdr, "cls2") or "?"
@@ -185,6 +203,11 @@ def custom(vc, spec, tier, seed, replay):
     cov["grid"] = {"routes_walked": routes, "concrete_paths": sorted(paths),
                    "cases_complete_by_configured_token_class": complete,
                    "cases_complete_by_reload_class": reload_classes,
+                   "interleaving_cases_outside_the_grid": dict(inter, by_split_and_new_token=sorted(inter["by_split_and_new_token"]),
+                       note="every 7th case: requests during which a reload lands right after the k-th read (k = 1, 2) of the "
+                            "configured token inside the request, new token in {cleared, other, whitespace-only}, request token in "
+                            "{absent, empty, blank, old, new, other, old as second value}, on one path per /query route and on the kept "
+                            "middleware instance; not part of the exhaustive grid"),
                    "cases_incomplete": incomplete,
                    "space": "every leaf route of the real mux whose template starts with /query x every instantiation "
                             "({format}: json, yaml, toml, JSON, xml; {traceID}: a trace of each shard) x request token "
@@ -205,8 +228,8 @@ SPEC = dict(
     props_module="Refinery.Props.C25",
     gen_module="Refinery.Gen.QueryAuth",
     custom=custom,
-    quick=dict(cases=48, len=1, shards=2),
-    thorough=dict(cases=16 * 64, len=1, shards=16),
+    quick=dict(cases=56, len=1, shards=2),
+    thorough=dict(cases=16 * 70, len=1, shards=16),
     nontrivial=nontrivial,
     rule="a case = one configured token, classes enumerated round-robin {empty, ordinary, whitespace-only, leading/trailing "
          "whitespace, inner whitespace, very long (600-1500 chars), non-ASCII}, concrete token drawn from the seed, and the "
@@ -216,7 +239,8 @@ SPEC = dict(
          "at least 6 refusals and, when a token is configured, at least one data response that really contains the secrets "
          "(shard address, rule marker, config marker); each case then reloads the token (to another token / cleared / whitespace-only, round-robin) while the router "
          "keeps running and repeats the grid relative to the new token plus the rotated-out token; every token class is also sent "
-         "through one instance of queryTokenChecker that was built before the reload; distinct by transcript hash",
+         "through one instance of queryTokenChecker that was built before the reload; every 7th case is an interleaving case "
+         "(outside the grid): requests during which a reload lands right after the k-th read of the token; distinct by transcript hash",
     trusted_base=["gorilla/mux routing and Walk, net/http/httptest (requests are served in-process by the handler LnS installed)",
                   "repo mocks: MockConfig (QueryAuthToken, sampler rules, config metadata), MockSharder"],
     manifest=dict(
